@@ -61,6 +61,8 @@ pub struct Run {
     pub states: AtomicU64,
     pub transitions: AtomicU64,
     pub traces: AtomicU64,
+    /// Number of cases on which the code under test exceeded its deadline.
+    pub hangs: AtomicU64,
     groups: Mutex<BTreeMap<String, Group>>,
     outcomes: Mutex<BTreeSet<String>>,
     samples: Mutex<Vec<Value>>,
@@ -99,6 +101,7 @@ impl Run {
             states: AtomicU64::new(0),
             transitions: AtomicU64::new(0),
             traces: AtomicU64::new(0),
+            hangs: AtomicU64::new(0),
             groups: Mutex::new(BTreeMap::new()),
             outcomes: Mutex::new(BTreeSet::new()),
             samples: Mutex::new(Vec::new()),
@@ -210,7 +213,31 @@ impl Run {
         self.traces.fetch_add(n, Ordering::Relaxed);
     }
 
+    /// After three deadline overruns a sweep stops launching further cases (each would cost a
+    /// full deadline); the run is then reported as capped, never as exhaustive.
+    pub fn too_many_hangs(&self) -> bool {
+        if self.hangs.load(Ordering::Relaxed) >= 3 {
+            let mut caps = self.caps.lock().unwrap();
+            let msg = "sweep stopped after three deadline overruns of the code under test; remaining cases skipped";
+            if !caps.iter().any(|c| c == msg) {
+                caps.push(msg.to_string());
+            }
+            true
+        } else {
+            false
+        }
+    }
+
     pub fn violation(&self, v: Violation) {
+        if v.signature.starts_with("hang") || v.signature.contains("/hang") || v.signature.contains("does-not-complete") {
+            self.hangs.fetch_add(1, Ordering::Relaxed);
+        }
+        if let Ok(path) = std::env::var("VERIF_DUMP") {
+            use std::io::Write;
+            if let Ok(mut f) = std::fs::OpenOptions::new().create(true).append(true).open(path) {
+                let _ = writeln!(f, "{}", json!({"signature": v.signature, "case": v.case}));
+            }
+        }
         let mut groups = self.groups.lock().unwrap();
         match groups.get_mut(&v.signature) {
             Some(group) => group.count += 1,
@@ -553,6 +580,10 @@ pub fn catch<T>(f: impl FnOnce() -> T) -> Result<T, PanicInfo> {
             let (file, line) = match loc.rsplit_once(':') {
                 Some((f, l)) => (f.to_string(), l.to_string()),
                 None => (loc.clone(), String::new()),
+            };
+            let file = match file.find("/out/") {
+                Some(pos) if file.contains("/build/") => format!("gen:{}", &file[pos + 5..]),
+                _ => file,
             };
             let file = file
                 .strip_prefix("/repo/")
